@@ -23,4 +23,10 @@ finally:
     for p_, txt in saved.items():
         open(os.path.join(V, "evidence", p_ + ".json"), "w").write(txt)
     subprocess.run(["git", "-C", "/repo", "checkout", "--", "."])
-json.dump(res, open(os.path.join(d, "check_result.json"), "w"), indent=1)
+old = {}
+try:
+    old = json.load(open(os.path.join(d, "check_result.json")))
+except (OSError, ValueError):
+    pass
+old.update(res)       # a run over a subset of the checks refreshes those entries only
+json.dump(old, open(os.path.join(d, "check_result.json"), "w"), indent=1)
